@@ -92,9 +92,18 @@ func msgSigPost(o *sipsp.PSIPMsg, buf []byte) (res string) {
 func init() { msgDrv.Post = msgSigPost }
 
 func checkC04(r *Run) {
+	if onlyPart == "pair" {
+		c04PairInterleave(r)
+		return
+	}
 	r.Assume = []string{"every Step runs under recover; a hang watchdog is not needed for the explorers (each call is bounded by the deadline check between jobs; loops are over a finite buffer)",
 		"hostile alphabets = structural bytes of each parser + NUL 0x7f 0x80 0xff; full 256-value alphabet to depth 2-3",
 		"isolation: see coverage.isolation"}
+	// cheap, high-yield parts first (the big tries below are what the time budget may cut)
+	c04NonParsing(r)
+	c04Isolation(r)
+	c04PairInterleave(r)
+	c04Reuse(r)
 	or := Oracles{Sanity: true}
 	d3 := r.pick(2, 3)
 	L := r.pick(5, 6)
@@ -199,9 +208,6 @@ func checkC04(r *Run) {
 	}
 	exploreSpaces(r, md, []space{{name: "subst1x256/msg", gen: unionTrie{st1[:r.pick(2, 4)]}, cfgs: mcf[:1], finalFlags: noMore, beyondErr: 1, beyondOk: 1, split: 1}}, or, nil)
 	exploreSpaces(r, md, []space{{name: "subst2xstructural/msg", gen: unionTrie{st2[:r.pick(1, 4)]}, cfgs: mcf[:1], finalFlags: noMore, beyondErr: 1, beyondOk: 1, split: 1}}, or, nil)
-	c04NonParsing(r)
-	c04Isolation(r)
-	c04Reuse(r)
 }
 
 // c04Reuse: crash-freedom also for calls on objects that were reset and reused (the E2 history search of C12 with the
@@ -239,5 +245,5 @@ func init() {
 func init() {
 	register("C04", &checkDef{fn: checkC04,
 		rule:        "E1 explorer with the sanity oracle (no panic; offset in [0,len], not before the passed offset unless error; every exported PField dereferenceable; GetMsgSig/String on every reached message object) over hostile byte tries, the full 256-value alphabet at depth 2-3, byte substitutions (<=1 x256, <=2 structural) into well-formed messages, all schedules; exhaustive enumeration of non-parsing entry points; E3 interleaving exploration of independent sessions; non-trivial = input with a suspension and a definitive verdict, or (non-parsing) a call that returned a non-default result",
-		quickBudget: 170 * time.Second, thorBudget: 40 * time.Minute})
+		quickBudget: 300 * time.Second, thorBudget: 40 * time.Minute})
 }
